@@ -523,6 +523,6 @@ impl StepSource for Gen {
             _ => Op::Remount { how: self.rng.below(3) as u8 },
         };
         let hard_at = if p.hard_fault > 0 && self.rng.below(1000) < u64::from(p.hard_fault) { Some(self.rng.range(1, 40)) } else { None };
-        Some(Step { c, op, hard_at })
+        Some(Step { c, op, hard_at, sticky: false })
     }
 }
